@@ -142,7 +142,12 @@ pub enum Ev {
     /// environment op applied (index into scenario ops, short description)
     Env { op: String },
     PollStart { task: usize },
-    PollEnd { task: usize, out: String },
+    PollEnd {
+        task: usize,
+        out: String,
+        /// the task's wake flag was already set again when the poll returned (it is not idle)
+        woken: bool,
+    },
     Io {
         tr: u8,
         task: Option<usize>,
